@@ -6,11 +6,15 @@
 import json, os, re, shutil, sys
 
 results = json.load(open(sys.argv[1]))
+PREFIX = sys.argv[2] if len(sys.argv) > 2 else '/tmp/seed2-'
+OFFSET = int(sys.argv[3]) if len(sys.argv) > 3 else 2
+CONF = sys.argv[4] if len(sys.argv) > 4 else '/tmp/confirm2'
+ROUND = int(sys.argv[5]) if len(sys.argv) > 5 else 2
 for key, r in sorted(results.items()):
     prop, i = key.split('/')
     i = int(i)
-    src = f'/tmp/seed2-{prop}'
-    dst = f'/verif/seeded/{prop}-{i + 2}'
+    src = f'{PREFIX}{prop}'
+    dst = f'/verif/seeded/{prop}-{i + OFFSET}'
     os.makedirs(dst, exist_ok=True)
     shutil.copy(f'{src}/change{i}.diff', f'{dst}/patch.diff')
     shutil.copy(f'{src}/demo{i}.rs', f'{dst}/demo.rs')
@@ -19,13 +23,13 @@ for key, r in sorted(results.items()):
     m = re.search(r'^#+[^\n]*needs[^\n]*\n(.*?)(?=^#+ |\Z)', notes, re.S | re.M | re.I)
     needs = m.group(1).strip() if m else ''
     files = sorted(set(re.findall(r'^diff --git a/(\S+)', open(f'{src}/change{i}.diff').read(), re.M)))
-    conf = json.load(open(f'/tmp/confirm2/{prop}-{i}.json'))
+    conf = json.load(open(f'{CONF}/{prop}-{i}.json'))
     meta = {
-        'id': f'{prop}-{i + 2}',
-        'round': 2,
+        'id': f'{prop}-{i + OFFSET}',
+        'round': ROUND,
         'breaks_property': prop,
         'files': files,
-        'written_by': 'independent sub-agent given only the property text, one-line summaries of the first-round changes for that property (to avoid repeats) and a scratch worktree',
+        'written_by': 'independent sub-agent given only the property text, one-line summaries of the changes of earlier rounds for that property (to avoid repeats) and a scratch worktree',
         'needs_to_manifest': needs,
         'confirmed': {
             'how': 'tools/seed_confirm2.sh in a scratch worktree of /repo (reduced feature set, cargo nextest for the existing suite; the demonstration as an integration test in tests/ or placed in the named source file as a unit-test module)',
